@@ -1,5 +1,7 @@
 package main
 
+import "strings"
+
 func init() {
 	register("C02", func(x *X) error {
 		// F1: flag bits and codes the validation model depends on
@@ -45,6 +47,49 @@ func init() {
 		x.Bool("buildUsesNewBundle", CallIndex(calls(x, "BundleBuilder", "Build"), "NewBundle") >= 0)
 		x.Bool("buildFromMapUsesBuild", CallIndex(calls(x, "", "BuildFromMap"), "bldr.Build") >= 0)
 		x.Bool("fragmentChecks", CallIndex(calls(x, "Bundle", "Fragment"), "fragBundle.CheckValid") >= 0)
+		// … for EVERY fragment: the check is a direct child statement of the fragment loop, under no other condition
+		x.Bool("fragmentChecksEveryFragment", func() bool {
+			fd, err := x.Func(bpv7Dir, "Bundle", "Fragment")
+			if err != nil {
+				x.Failf("%v", err)
+				return false
+			}
+			sk := x.Skeleton(fd)
+			for i, l := range sk {
+				if l != "  if err = fragBundle.CheckValid(); err != nil" {
+					continue
+				}
+				if i+1 >= len(sk) || sk[i+1] != "    return" {
+					return false
+				}
+				for j := i - 1; j >= 0; j-- {
+					if !strings.HasPrefix(sk[j], " ") {
+						return strings.HasPrefix(sk[j], "for ")
+					}
+				}
+			}
+			return false
+		}())
+		// the node's own bundles are Builder() chains ending in Build(); the harness runs the same chains
+		chain := func(dir, recv, name string) []string {
+			fd, err := x.Func(dir, recv, name)
+			if err != nil {
+				x.Failf("%v", err)
+				return nil
+			}
+			var out []string
+			for _, c := range x.Calls(fd) {
+				if strings.HasPrefix(c, "bundleBuilder.") {
+					out = append(out, c)
+				} else if strings.Contains(c, "Builder()") && (len(out) == 0 || len(c) > len(out[0])) {
+					out = []string{c} // a fluent chain: its longest form names every call
+				}
+			}
+			return out
+		}
+		x.StrList("statusReportChain", chain("pkg/routing", "Pipeline", "sendReport"))
+		x.StrList("pongChain", chain("pkg/agent", "PingAgent", "ackBundle"))
+		x.StrList("metadataChain", chain("pkg/routing", "", "sendMetadataBundle"))
 		x.Bool("reassembleChecks", CallIndex(calls(x, "", "ReassembleFragments"), "b.CheckValid") >= 0)
 		return nil
 	})
